@@ -1,6 +1,6 @@
 ---------------------------------------- MODULE HexSymmetry_trace ----------------------------------------
 (* code -> spec: recorded random walks of HexGrid.rotateIndex on a real grid.  A trace is
-   {"id", "o": "flat"|"corner", "c0": [i,j], "ev": [{"a": {"n": "Rotate", "k": k}, "post": {"c": [i,j], "xy": [X,Y]}}, ..]}
+   {"id", "o": "flat"|"corner", "c0": [i,j], "kz0": k, "ev": [{"a": {"n": "Rotate", "k": k}, "post": {"c": [i,j], "xy": [X,Y], "kz": k, "z": Z}}, ..]}
    where xy are the real coordinates of the returned location divided by the lattice units.  Every event must be a
    Rotate(k) step of HexSymmetry that lands on the logged cell, whose lattice coordinates are the logged ones. *)
 EXTENDS HexSymmetry, IOUtils, TLCExt
@@ -10,16 +10,17 @@ VARIABLES tid, l
 ASSUME \A t \in 1..NT : TLCSet(t, 0)
 TInit == /\ tid \in 1..NT /\ l = 1
          /\ o = Traces[tid].o /\ c = <<Traces[tid].c0[1], Traces[tid].c0[2]>>
-         /\ act = [n |-> "Init", k |-> 0, from |-> c]
+         /\ kz = Traces[tid].kz0 /\ sp = "canonical"
+         /\ act = [n |-> "Init", k |-> 0, from |-> c, kz |-> kz]
 Ev == Traces[tid].ev[l]
-ObsMatch == \/ (c' = <<Ev.post.c[1], Ev.post.c[2]>> /\ SymXY(o, c') = <<Ev.post.xy[1], Ev.post.xy[2]>>)
-            \/ /\ ~(c' = <<Ev.post.c[1], Ev.post.c[2]>> /\ SymXY(o, c') = <<Ev.post.xy[1], Ev.post.xy[2]>>)
-               /\ PrintT(ToJson([mismatch |-> Traces[tid].id, at |-> l, expected |-> [c |-> c', xy |-> SymXY(o, c')]]))
+ObsMatch == \/ (c' = <<Ev.post.c[1], Ev.post.c[2]>> /\ SymXY(o, c') = <<Ev.post.xy[1], Ev.post.xy[2]>> /\ kz' = Ev.post.kz /\ kz' = Ev.post.z)
+            \/ /\ ~(c' = <<Ev.post.c[1], Ev.post.c[2]>> /\ SymXY(o, c') = <<Ev.post.xy[1], Ev.post.xy[2]>> /\ kz' = Ev.post.kz /\ kz' = Ev.post.z)
+               /\ PrintT(ToJson([mismatch |-> Traces[tid].id, at |-> l, expected |-> [c |-> c', xy |-> SymXY(o, c'), kz |-> kz']]))
                /\ FALSE
 TNext == /\ l <= Len(Traces[tid].ev) /\ l' = l + 1 /\ tid' = tid
          /\ Ev.a.n = "Rotate" /\ Rotate(Ev.a.k)
          /\ ObsMatch
-TSpec == TInit /\ [][TNext]_<<o, c, act, tid, l>>
+TSpec == TInit /\ [][TNext]_<<o, c, kz, sp, act, tid, l>>
 Progress == IF TLCGet(tid) < l THEN TLCSet(tid, l) ELSE TRUE
 Report == LET bad == {t \in 1..NT : TLCGet(t) # Len(Traces[t].ev) + 1} IN
           /\ \A t \in bad : PrintT(ToJson([rejected |-> Traces[t].id, matched |-> TLCGet(t) - 1]))
